@@ -425,6 +425,7 @@ package machine
 //@ func (rr *DefaultRelationsResolver) TargetStates(t *Transition, statesToSet, index S) (ret S)
 //@   props C02 C19
 //@   abstracts the closure of the first slicesFilter call (block scan) assigns alreadyBlocked: only the callee's closure-independent postconditions are used for it
+//@   ghost survivors S, toRemove S
 //@   requires nn:     rr != nil && t != nil && t.Machine != nil && t.Mutation != nil
 //@   requires locks:  unlocked(t.Machine.schemaMx)
 //@   requires known:  Known(t.Machine, statesToSet)
@@ -436,6 +437,7 @@ package machine
 //@   ensures  justified_in: forall x string :: mem(ret, x) ==> mem(statesToSet, x) || (exists s string :: has(t.Machine.schema, s) && mem(t.Machine.schema[s].Add, x))
 //@   ensures  add_followed: forall s, a string :: mem(ret, s) && AddApplies(rr, s) && AddOf(rr, s, a) ==>
 //@                mem(ret, a) || mem(toRemove, a) || (exists r string :: mem(t.Machine.schema[a].Require, r) && !mem(ret, r))
+//@   ensures  from_survivors: forall x string :: mem(ret, x) ==> mem(survivors, x) || (exists s string :: has(t.Machine.schema, s) && mem(t.Machine.schema[s].Add, x))
 //@   ensures  removed_by_survivor: forall x string :: mem(toRemove, x) ==> (exists b string :: mem(survivors, b) && mem(t.Machine.schema[b].Remove, x))
 //@   ensures  remove_consistent: forall s, b string :: mem(ret, s) && mem(ret, b) && s != b ==> !mem(t.Machine.schema[b].Remove, s)
 //@   ensures  remove_consistent_mod_resurrection: forall s, b string :: mem(ret, s) && mem(ret, b) && mem(t.Machine.schema[b].Remove, s) ==> !mem(survivors, b)
@@ -558,3 +560,30 @@ package machine
 //@   loop 1 invariant nodup: nodup(toAdd)
 //@   loop 1 invariant order: (forall i, j int :: 0 <= i && i < j && j < len(toAdd) ==> index(m.stateNames, toAdd[i]) < index(m.stateNames, toAdd[j])) && (forall i int :: 0 <= i && i < len(toAdd) ==> index(m.stateNames, toAdd[i]) < idx1)
 //@   loop 2 invariant none:  forall j int :: 0 <= j && j < idx2 ==> !mem(m.schema[m.activeStates[j]].Remove, s)
+
+// ---- C19: exclusive groups, for all schemas (instantiated on the shipped
+// schema constants by the ground obligations of the C19 check) ----
+
+//@ pred GroupClique(schema Schema, g S) := forall x, y string :: mem(g, x) && mem(g, y) && x != y ==> mem(schema[x].Remove, y)
+//@ pred AddTarget(schema Schema, x string) := exists s string :: has(schema, s) && mem(schema[s].Add, x)
+// At most one member of the group is the target of an Add relation.
+//@ pred AtMostOneAddTarget(schema Schema, g S) := forall x, y string :: mem(g, x) && mem(g, y) && x != y ==> !(AddTarget(schema, x) && AddTarget(schema, y))
+
+// In every target the resolver computes, a group whose members Remove one
+// another and of which at most one member is an Add target has at most one member.
+//@ lemma group_exclusive(rr *DefaultRelationsResolver, t *Transition, statesToSet S, index S, g S, a string, b string)
+//@   props C19
+//@   requires nn:     rr != nil && t != nil && t.Machine != nil && t.Mutation != nil
+//@   requires locks:  unlocked(t.Machine.schemaMx)
+//@   requires known:  Known(t.Machine, statesToSet)
+//@   requires refs:   SchemaRefs(t.Machine.schema)
+//@   requires clique: GroupClique(t.Machine.schema, g)
+//@   requires one:    AtMostOneAddTarget(t.Machine.schema, g)
+//@   call ret := rr.TargetStates(t, statesToSet, index)
+//@   ensures  excl:   mem(g, a) && mem(g, b) && a != b ==> !(mem(ret, a) && mem(ret, b))
+
+// Ground-checkable well-formedness predicates.
+//@ pred NoRequireRemoveConflict(schema Schema) := forall s, x string :: has(schema, s) && mem(schema[s].Require, x) ==> !mem(schema[s].Remove, x)
+//@ pred RefsDefinedOrException(schema Schema) := forall s, x string :: has(schema, s) && (mem(schema[s].Add, x) || mem(schema[s].Require, x) || mem(schema[s].Remove, x) || mem(schema[s].After, x)) ==> has(schema, x) || x == "Exception"
+//@ pred NamesAgree(schema Schema, names S) := nodup(names) && (forall x string :: has(schema, x) ==> mem(names, x)) && (forall x string :: mem(names, x) ==> has(schema, x) || x == "Exception")
+//@ pred RequireRanked(schema Schema, rank map[string]int) := forall s, x string :: has(schema, s) && mem(schema[s].Require, x) && has(schema, x) ==> rank[x] < rank[s]
